@@ -80,14 +80,23 @@ const (
 	FaultPeerEOF                // the peer vanishes gracefully: local reads see EOF at the offset
 	FaultPeerReset              // the peer vanishes: local reads fail at the offset, undelivered bytes dropped
 	FaultLocalClose             // the local endpoint is closed by a third party when the offset is reached
+	// The two kinds below are NOT fail-stop: only the one write fails (as with an expired write
+	// deadline); the endpoint stays open, later writes go through and reads keep working.
+	FaultWriteErrOnly     // the write reaching the offset returns an error, nothing of it delivered
+	FaultWritePartialOnly // bytes before the offset are delivered, then the write returns an error
 )
 
 func (k FaultKind) String() string {
-	return [...]string{"none", "write-err", "write-partial", "read-err", "read-data-err", "peer-eof", "peer-reset", "local-close"}[k]
+	return [...]string{"none", "write-err", "write-partial", "read-err", "read-data-err", "peer-eof", "peer-reset", "local-close", "write-err-only", "write-partial-only"}[k]
 }
 
 // IsWrite reports whether the fault is positioned on the outgoing byte stream.
-func (k FaultKind) IsWrite() bool { return k == FaultWriteErr || k == FaultWritePartial }
+func (k FaultKind) IsWrite() bool {
+	return k == FaultWriteErr || k == FaultWritePartial || k == FaultWriteErrOnly || k == FaultWritePartialOnly
+}
+
+// FailStop reports whether the endpoint is dead after the fault.
+func (k FaultKind) FailStop() bool { return k != FaultWriteErrOnly && k != FaultWritePartialOnly }
 
 // Fault is a fail-stop fault plan for one endpoint.
 type Fault struct {
@@ -223,6 +232,15 @@ func (e *End) SetFault(f Fault) {
 	e.fault = &f
 }
 
+func (e *End) faultKind() FaultKind {
+	e.mu.Lock()
+	defer e.mu.Unlock()
+	if e.fault == nil {
+		return FaultNone
+	}
+	return e.fault.Kind
+}
+
 // FaultFired reports whether the fault plan has triggered.
 func (e *End) FaultFired() bool {
 	e.mu.Lock()
@@ -354,7 +372,7 @@ func (e *End) Write(p []byte) (n int, err error) {
 	if f := e.fault; f != nil && f.Kind.IsWrite() && !f.fired && f.Offset >= off && f.Offset < off+int64(len(p)) {
 		f.fired = true
 		ferr = ErrFault
-		if f.Kind == FaultWritePartial {
+		if f.Kind == FaultWritePartial || f.Kind == FaultWritePartialOnly {
 			data = p[:f.Offset-off]
 		} else {
 			data = nil
@@ -397,7 +415,9 @@ func (e *End) Write(p []byte) (n int, err error) {
 	n, err = e.deliver(data)
 	e.wmu.Unlock()
 	if ferr != nil {
-		e.failStop(ErrFault, false)
+		if e.faultKind().FailStop() {
+			e.failStop(ErrFault, false)
+		}
 		return n, ferr
 	}
 	if err != nil {
